@@ -228,6 +228,7 @@ class EqualityComparer:
 
     def map_reshape(self, expr1: Reshape, expr2: Reshape) -> bool:
         return (expr1.newshape == expr2.newshape
+                and expr1.order == expr2.order
                 and self.rec(expr1.array, expr2.array)
                 and expr1.tags == expr2.tags
                 and expr1.axes == expr2.axes
